@@ -1,5 +1,6 @@
 import CifModel.Lemmas.ParserTop
 import CifModel.Spec.Recovery
+import CifModel.Lemmas.ParserDefect
 /-
   Props/C12 — each class of input defect is reported with its code and recovered as documented (property C12), as theorems
   about the integrated parser model `Model.Parser.parse`.
@@ -12,7 +13,8 @@ import CifModel.Spec.Recovery
   and the universal version is carried by the `defect` correspondence family with its independent oracle.
 -/
 namespace CifModel
-open CifModel.Model CifModel.Model.Lexer CifModel.Model.Parser CifModel.Spec.Recovery
+open CifModel.Model CifModel.Model.Lexer CifModel.Model.Parser CifModel.Spec.Recovery CifModel.Spec.Grammar
+open CifModel.Gen.ErrCodes (CIF_MISSING_VALUE CIF_UNEXPECTED_VALUE CIF_DUP_ITEMNAME CIF_EMPTY_LOOP CIF_NO_BLOCK_HEADER)
 
 /-- **C12_clean** — a document in which the accept-all parse finds no defect triggers no callback under any policy and is
     read identically (= C01 for the callback side) -/
@@ -49,6 +51,119 @@ theorem C12_first_report_is_policy_free (o : Opts) (pol : Policy) (pre : Cif) (u
     cases hx : x.2.reverse with
     | nil => rw [hx] at hA; simp at hA; simp [hA.1]
     | cons a b => rw [hx] at hA; simp at hA; simp [hA.1]
+
+/-! ### universally quantified class theorems (token level)
+
+  Setting of the four theorems below: ANY container under construction (data block or save frame: any `View` of the store), ANY
+  well-formed run of items `pre` in front of the defect and ANY well-formed run `post` behind it (scalar items and loops with lists /
+  tables of any depth, every presentation), the scanner entering through `Feeds` (it delivers the tokens of `pre`, of the defective
+  construct, of `post` and of what follows), accept-all callback.  Conclusion: the element loop of parse_container goes from the
+  first token of `pre` to the token behind `post` having logged EXACTLY ONE report `r` — `r.code` = the documented code of the class
+  — and the container holds exactly what the documented recovery prescribes: the items of `pre` and `post` as if nothing had
+  happened (content outside the defective construct unaffected) and the recovered construct between them.
+  (Line of the report: shown at the step level — `missing_value_step`: `r.line` = the scanner's line when the token FOLLOWING
+  the defect has been scanned; at document level it is checked by the `defect` oracle.) -/
+
+/-- **C12_missing_value** — a data name that is not followed by a value: CIF_MISSING_VALUE, the item gets the unknown value -/
+theorem C12_missing_value (o : Opts) {path : Path} {put : Container → Cif} {code : Str} (hv : View o path put code)
+    (pre post : List Item) (n : Str) (seen seen2 : List Str) (rest : List TokSpec) (s : PS) (fuel : Nat) (w : W)
+    (fs : List Container) (ls : List Loop) (isBlock : Bool) (hcif : w.cif = put (.mk code fs ls))
+    (hpre : wfItems o pre seen = true) (hseen : ∀ k ∈ normNames o ls, k ∈ seen)
+    (hname : wfName n = true) (hfresh : o.norm n ∉ normNames o (denoteItems o.dia o.normKey pre ls))
+    (hpost : wfItems o post seen2 = true)
+    (hseen2 : ∀ k ∈ normNames o (denoteItems o.dia o.normKey (pre ++ [.item n .unk]) ls), k ∈ seen2)
+    (hfuel : szItems pre + szItems post + 1 ≤ fuel)
+    (hpostne : post ≠ [] ∨ ∃ ty tx ts, rest = (ty, tx) :: ts ∧ isTerminator ty = true)
+    (hrest : lastIsLoop post = true → ∃ ty tx ts, rest = (ty, tx) :: ts ∧ isTerminator ty = true)
+    (hF : Feeds o s (itemsToks pre ++ ((.name, n) :: (itemsToks post ++ rest)))) :
+    ∃ s' r, elemsLoop o (fuel + post.length + 1 + pre.length) s (some path) isBlock acceptAll w
+        = elemsLoop o fuel s' (some path) isBlock acceptAll
+            { log := r :: w.log, cif := put (.mk code fs (denoteItems o.dia o.normKey (pre ++ [.item n .unk] ++ post) ls)) }
+      ∧ r.code = CIF_MISSING_VALUE ∧ Feeds o s' rest := by
+  apply missing_value_run <;> assumption
+
+/-- **C12_unexpected_value** — a value (of any kind, nested lists / tables included) where an item is expected, not directly
+    behind a loop: CIF_UNEXPECTED_VALUE, the value is parsed and ignored -/
+theorem C12_unexpected_value (o : Opts) {path : Path} {put : Container → Cif} {code : Str} (hv : View o path put code)
+    (pre post : List Item) (v : Val) (seen seen2 : List Str) (rest : List TokSpec) (s : PS) (fuel : Nat) (w : W)
+    (fs : List Container) (ls : List Loop) (isBlock : Bool) (hcif : w.cif = put (.mk code fs ls))
+    (hpre : wfItems o pre seen = true) (hseen : ∀ k ∈ normNames o ls, k ∈ seen) (hnoloop : lastIsLoop pre = false)
+    (hwv : wfVal o v = true) (hpost : wfItems o post seen2 = true)
+    (hseen2 : ∀ k ∈ normNames o (denoteItems o.dia o.normKey pre ls), k ∈ seen2)
+    (hfuel : szItems pre + szItems post + szVal v + 1 ≤ fuel)
+    (hrest : lastIsLoop post = true → ∃ ty tx ts, rest = (ty, tx) :: ts ∧ isTerminator ty = true)
+    (hF : Feeds o s (itemsToks pre ++ (valToks v ++ (itemsToks post ++ rest)))) :
+    ∃ s' r, elemsLoop o (fuel + post.length + 1 + pre.length) s (some path) isBlock acceptAll w
+        = elemsLoop o fuel s' (some path) isBlock acceptAll
+            { log := r :: w.log, cif := put (.mk code fs (denoteItems o.dia o.normKey (pre ++ post) ls)) }
+      ∧ r.code = CIF_UNEXPECTED_VALUE ∧ Feeds o s' rest := by
+  apply unexpected_value_run <;> assumption
+
+/-- **C12_dup_itemname** — a data name whose normalised form is already defined in the container (as a scalar or in a loop,
+    in any spelling): CIF_DUP_ITEMNAME, the name and its value are parsed and dropped -/
+theorem C12_dup_itemname (o : Opts) {path : Path} {put : Container → Cif} {code : Str} (hv : View o path put code)
+    (pre post : List Item) (n : Str) (v : Val) (seen seen2 : List Str) (rest : List TokSpec) (s : PS) (fuel : Nat) (w : W)
+    (fs : List Container) (ls : List Loop) (isBlock : Bool) (hcif : w.cif = put (.mk code fs ls))
+    (hpre : wfItems o pre seen = true) (hseen : ∀ k ∈ normNames o ls, k ∈ seen)
+    (hname : wfName n = true) (hdup : o.norm n ∈ normNames o (denoteItems o.dia o.normKey pre ls))
+    (hwv : wfVal o v = true) (hpost : wfItems o post seen2 = true)
+    (hseen2 : ∀ k ∈ normNames o (denoteItems o.dia o.normKey pre ls), k ∈ seen2)
+    (hfuel : szItems pre + szItems post + szVal v + 1 ≤ fuel)
+    (hrest : lastIsLoop post = true → ∃ ty tx ts, rest = (ty, tx) :: ts ∧ isTerminator ty = true)
+    (hF : Feeds o s (itemsToks pre ++ (((.name, n) :: valToks v) ++ (itemsToks post ++ rest)))) :
+    ∃ s' r, elemsLoop o (fuel + post.length + 1 + pre.length) s (some path) isBlock acceptAll w
+        = elemsLoop o fuel s' (some path) isBlock acceptAll
+            { log := r :: w.log, cif := put (.mk code fs (denoteItems o.dia o.normKey (pre ++ post) ls)) }
+      ∧ r.code = CIF_DUP_ITEMNAME ∧ Feeds o s' rest := by
+  apply dup_name_run <;> assumption
+
+/-- **C12_empty_loop** — a loop header (≥ 1 valid, new, pairwise distinct names) followed by no value: CIF_EMPTY_LOOP, the loop
+    is accepted without packets (parse_container prunes it when the container ends) -/
+theorem C12_empty_loop (o : Opts) {path : Path} {put : Container → Cif} {code : Str} (hv : View o path put code)
+    (pre post : List Item) (ns : List Str) (seen seen2 : List Str) (rest : List TokSpec) (s : PS) (fuel : Nat) (w : W)
+    (fs : List Container) (ls : List Loop) (isBlock : Bool) (hcif : w.cif = put (.mk code fs ls))
+    (hpre : wfItems o pre seen = true) (hseen : ∀ k ∈ normNames o ls, k ∈ seen)
+    (hns : ns ≠ []) (hwf : ∀ n ∈ ns, wfName n = true)
+    (hfresh : ∀ n ∈ ns, o.norm n ∉ normNames o (denoteItems o.dia o.normKey pre ls)) (hnd : (ns.map o.norm).Nodup)
+    (hpost : wfItems o post seen2 = true)
+    (hseen2 : ∀ k ∈ normNames o (denoteItems o.dia o.normKey pre ls ++ [mkLoop ns []]), k ∈ seen2)
+    (hfuel : szItems pre + szItems post + (ns.length + 2) + 1 ≤ fuel)
+    (hnext : ∃ ty tx ts, itemsToks post ++ rest = (ty, tx) :: ts ∧ isTerminator ty = true ∧ ty ≠ .name)
+    (hrest : lastIsLoop post = true → ∃ ty tx ts, rest = (ty, tx) :: ts ∧ isTerminator ty = true)
+    (hF : Feeds o s (itemsToks pre ++ (((.loopKw, []) :: ns.map (fun n => (TokType.name, n))) ++ (itemsToks post ++ rest)))) :
+    ∃ s' r, elemsLoop o (fuel + post.length + 1 + pre.length) s (some path) isBlock acceptAll w
+        = elemsLoop o fuel s' (some path) isBlock acceptAll
+            { log := r :: w.log,
+              cif := put (.mk code fs (denoteItems o.dia o.normKey post (denoteItems o.dia o.normKey pre ls ++ [mkLoop ns []]))) }
+      ∧ r.code = CIF_EMPTY_LOOP ∧ Feeds o s' rest := by
+  apply empty_loop_run <;> assumption
+
+/-- **C12_no_block_header** — a whole document whose first elements `e :: es` (items, loops, save frames: any well-formed element
+    list) stand BEFORE the first data block header, followed by any well-formed data blocks `bs`: under accept-all parse_cif returns
+    CIF_OK having logged exactly one report, CIF_NO_BLOCK_HEADER, and the CIF consists of an anonymous block (empty code) holding
+    exactly what the elements denote, followed by exactly what the blocks denote. -/
+theorem C12_no_block_header (o : Opts) (e : Elem) (es : List Elem) (bs : List Block) (s : PS) (f : Nat) (w : W)
+    (hstore : o.store = true) (hmfd : o.maxFrameDepth ≠ 0) (hempty : w.cif = [])
+    (hwb : wfElems o (e :: es) [] [] = true) (hwbs : wfBlocks o bs [o.norm []] = true)
+    (hf1 : szBlocks bs + 1 ≤ f) (hf2 : szElems (e :: es) + (e :: es).length + 3 ≤ f + bs.length)
+    (hF : Feeds o s (elemsToks (e :: es) ++ (blocksToks bs ++ [(.end_, [])]))) :
+    ∃ r, parseCif o (f + bs.length + 1) s acceptAll w
+        = .ok () { log := r :: w.log, cif := denoteBlock o.dia o.normKey { code := [], body := e :: es } :: denote o.dia o.normKey bs }
+      ∧ r.code = CIF_NO_BLOCK_HEADER := by
+  obtain ⟨s1, r, h1, hr, h2⟩ := no_block_header_step o hstore hmfd e es _ s (f + bs.length) w
+    (by rw [hempty]; intro c hc; cases hc) hwb hf2 (blocks_rest_head bs) hF
+  obtain ⟨s2, h3⟩ := blocks_structure o hstore hmfd bs [o.norm []] s1 f acceptAll
+    { log := r :: w.log, cif := w.cif ++ [denoteBlock o.dia o.normKey { code := [], body := e :: es }] } hwbs
+    (by
+      intro c hc
+      rw [hempty] at hc
+      simp only [List.nil_append, List.mem_singleton] at hc
+      subst hc; simp [denoteBlock, Container.code])
+    hf1 h2
+  refine ⟨r, ?_, hr⟩
+  simp only [hempty, List.nil_append] at h1 h3
+  unfold parseCif
+  simp only [clamp, Parser.bind_eq, Parser.pure_eq, P.bind, P.pure, h1, h3, List.singleton_append]
 
 /-- the universal per-class statement (not proved): for every host, position and layout, the planted document's accept-all
     parse has the class's code first, at a line between the defect and the following token, and the documented content -/
